@@ -93,7 +93,7 @@ func wireEncode(v *wireVec) (*wireCase, error) {
 				body = append(body, fmt.Sprintf("key%d", p)...)
 				body = append(body, 0)
 				body = append(body, fmt.Sprintf("val%d", p)...)
-				if want := map[string]int{"max": 10000, "over": 10001}[ms_(m, "size")]; want > 0 && p == 0 {
+				if want := map[string]int{"big": 7000, "max": 10000, "over": 10001}[ms_(m, "size")]; want > 0 && p == 0 {
 					// pad the first value: 4 (length) + 4 (version) + key0 NUL val0<pad> NUL + final NUL = want
 					body = append(body, filler(want-4-len(body)-2, 9)...)
 				}
@@ -590,7 +590,16 @@ func init() {
 			if v.Net == "tcp" && v.Proto != "quic" && len(stream) >= 3 && len(stream) <= 8000 && maxAlloc <= 16<<20 {
 				total := len(stream)
 				sh := v.Gid % 5
-				for _, cuts := range [][]int{{total/3 + sh%2, 2*total/3 + sh, total}, {total/2 - sh, total}, {1 + sh, total - 1 - sh%2, total}} {
+				cutsets := [][]int{{total/3 + sh%2, 2*total/3 + sh, total}, {total/2 - sh, total}, {1 + sh, total - 1 - sh%2, total}}
+				if total > 6200 {
+					// a long message in many segments none of which ends on a chunk boundary: 100 (+sh), then 2048 at a time
+					var c []int
+					for x := 100 + sh; x < total; x += 2048 {
+						c = append(c, x)
+					}
+					cutsets = append(cutsets, append(c, total))
+				}
+				for _, cuts := range cutsets {
 					okc := true
 					for j, c := range cuts {
 						if c <= 0 || c > total || (j > 0 && c <= cuts[j-1]) || (j > 0 && c-cuts[j-1] > 2048) || (j == 0 && c > 2048) {
